@@ -447,7 +447,7 @@ class UserSecurityModel(
         engine_config["received_at"] = time.time()
 
     def update_engine_timing(
-        self, security_params: USMSecurityParameters
+        self, security_params: USMSecurityParameters, force: bool = False
     ) -> None:
         """
         Synchronise our notion of the remote engine's boots and time with the
@@ -462,8 +462,13 @@ class UserSecurityModel(
         known = self.local_config.get(engine_id, {})
         known_boots = known.get("authoritative_engine_boots", -1)
         known_time = known.get("authoritative_engine_time", -1)
-        if boots > known_boots or (
-            boots == known_boots and engine_time > known_time
+        # An authentic "not in time window" report tells us that our notion
+        # is wrong, whatever it is (f.ex. when the unauthenticated discovery
+        # gave us a time that lies in the future). Take the values as they are.
+        if (
+            force
+            or boots > known_boots
+            or (boots == known_boots and engine_time > known_time)
         ):
             self.set_engine_timing(engine_id, boots, engine_time)
 
@@ -521,7 +526,9 @@ class UserSecurityModel(
 
         verify_authentication(message, credentials, security_params)
         if message.header.flags.auth:
-            self.update_engine_timing(security_params)
+            self.update_engine_timing(
+                security_params, force=is_not_in_time_window_report(message)
+            )
         message = decrypt_message(message, credentials)
         validate_usm_message(message)
         validate_security_level(message, credentials)
@@ -613,6 +620,28 @@ class UserSecurityModel(
             unknown_engine_ids=unknown_engine_ids,
         )
         return out
+
+
+def is_not_in_time_window_report(
+    message: Union[PlainMessage, EncryptedMessage]
+) -> bool:
+    """
+    Return True if the message is a usmStatsNotInTimeWindows report (which
+    is sent unencrypted, see :rfc:`3414#section-3.2` step 7)
+    """
+    if not isinstance(message.scoped_pdu, ScopedPDU):
+        return False
+    pdu = message.scoped_pdu.data
+    if not isinstance(pdu, Report):
+        return False
+    try:
+        varbinds = pdu.value.varbinds
+    except Exception:  # pylint: disable=broad-except
+        return False
+    return any(
+        varbind.oid == ObjectIdentifier("1.3.6.1.6.3.15.1.1.2.0")
+        for varbind in varbinds
+    )
 
 
 def validate_usm_message(message: PlainMessage) -> None:
